@@ -21,7 +21,7 @@ SPEC = {
              "non-canonical respellings, corpus. distinct_nontrivial = distinct emitted strings with >=2 element symbols or an attribute section"),
     "assumptions": ["recogniser written from tucan.ebnf; key order inside an attribute block and an empty third section are not constrained by the property and not flagged"],
     "monitors_required": ["c05_validate"],
-    "required_obs": {"quick": ["formula_class/C_and_H", "formula_class/C_without_H", "formula_class/H_without_C", "formula_class/neither", "cov_count_ge_10",
+    "required_obs": {"quick": ["cov_exported_as_molfile_before_serialization", "formula_class/C_and_H", "formula_class/C_without_H", "formula_class/H_without_C", "formula_class/neither", "cov_count_ge_10",
                                "cov_block_with_both_keys", "cov_reader_explicit_zero", "cov_parser_route", "cov_reader_route_v2000", "cov_corpus"]},
     "watchdog_s": {"quick": 900, "thorough": 3600},
 }
@@ -56,7 +56,15 @@ def _run_case(ctx, case):
     if g0.number_of_nodes() == 0:
         return
     ctx.evaluations += 1
+    if case.get("export_first"):
+        # usage history: the same graph object is exported as a molfile first and identified afterwards
+        import tucan.io.molfile_writer as mw
+        mw.graph_to_molfile(g0)
+        ctx.count("cov_exported_as_molfile_before_serialization")
     r = c.canonicalize_molecule(g0)
+    if case.get("export_first") == 2:
+        import tucan.io.molfile_writer as mw
+        mw.graph_to_molfile(r)
     ok, s0 = molprops.guarded(ctx, case, s.serialize_molecule, r)
     if not ok:
         return
@@ -98,8 +106,10 @@ def run(ctx):
     plan = PLAN[ctx.tier]
     monitors.install(ctx, {"C05"}, seed=f"{ctx.seed}/{ctx.shard}")
     for case in molprops.cases(ctx, plan):
+        case["export_first"] = ctx.rng.choice([0, 0, 0, 0, 0, 0, 1, 2])
         run_case(ctx, case)
     for case in extra_cases(ctx, plan):
+        case["export_first"] = ctx.rng.choice([0, 0, 0, 0, 0, 0, 1, 2])
         run_case(ctx, case)
 
 
